@@ -39,6 +39,13 @@ def prophecyWF (p : Prophecy) : Bool := decide (ProphecyWF p)
 /-- validators known to staking have distinct operator addresses -/
 def ValsWF (vals : List Validator) : Prop := (vals.map (·.id)).Nodup
 
+/-- an accepted claim comes from a validator that is in the (stored) whitelist and bonded -/
+def acceptedClaimantOK (vals : List Validator) (wl : List Nat) (v : Nat) : Bool := inWhiteList wl v && checkActive vals v
+
+/-- the whitelist the keeper serves is the whitelist the store holds (no state outside the multistore, which a
+    discarded transaction would not roll back) -/
+def viewIsStore (view stored : List Nat) : Bool := view == stored
+
 /-- Finality as observed around one claim message: a prophecy that was not pending before the message is the
     same afterwards, the message did not succeed, and no balance or supply changed. -/
 def finalStable (before : Prophecy) (after : Option Prophecy) (ok : Bool) (bankSame : Bool) : Bool :=
